@@ -9,6 +9,7 @@ import EaselModel.Buffer.Quiet
 import EaselModel.Buffer.TotalHist
 import EaselModel.Buffer.MemExact
 import EaselModel.Buffer.Stable
+import EaselModel.Buffer.Pinned
 import EaselModel.Buffer.MemRealLemmas  -- round4-mem
 import EaselModel.Buffer.MemRealStart  -- round 6
 import EaselModel.Buffer.OpenFileLemmas -- round4-open
@@ -209,6 +210,40 @@ theorem stable_growth_bounded (b : Buf) (hpin : pinned b = true) :
 
 -- non-vacuity: a pinned state that has to grow (2-byte window of a 4-byte stream, page 2, no room), on a tree with the repair
 example : BufConsts.stableRetire = true → pinned stableWitness = true ∧ stableWitness.n + stableWitness.pagesize > stableWitness.balloc := by decide
+
+/-- **One operation under a stable anchor.** From any state in which an anchor is set, `bf->stable` is set (repaired tree) and
+    the memory generation is `g` (`I true g b`; no well-formedness or contract hypothesis), every one of the 14 operations
+    other than `SetStableAnchor` itself, with any argument, ends with the memory generation still `g` and the flag still
+    set — unless it raised the last anchor (`I false g`: the conclusion is conditional on an anchor still being set). -/
+theorem stable_ptr_valid_step (g : Nat) (b : Buf) (lp : Option Nat) (op : Op) (h : I true g b)
+    (h1 : ∀ o, op ≠ .setStableAnchor o) : I false g (opRun b lp op).2 :=
+  pinned_step b lp op h h1
+
+/-- **The property's clause, for every history**: "pointers handed out under a stable anchor stay valid until it is
+    raised". After a successful `SetStableAnchor` on a stream (`stable_anchor_establishes`), along EVERY history of the
+    other 13 operations — any arguments, inside or outside the API contract, any page size, any amount of data read — as long
+    as an anchor is still set after each operation (`Anchored`: it has not been raised yet), no byte that was handed out has been
+    moved or freed (`memgen = g`) and the protection is still in force. -/
+theorem stable_ptr_valid_history (g : Nat) (ops : List Op) (s : Sess) (h : I true g s.b)
+    (hno : ∀ op ∈ ops, ∀ o, op ≠ .setStableAnchor o) (ha : Anchored s ops) :
+    (runS s ops).b.memgen = g ∧ pinned (runS s ops).b = true ∧ (runS s ops).b.anchor ≠ none :=
+  let r := pinned_history ops s h hno ha (Or.inl rfl)
+  ⟨r.2.1, r.2.2, r.1⟩
+
+/-- the hypothesis of `stable_ptr_valid_history` is what a successful `SetStableAnchor` on a stream leaves (repaired tree) -/
+theorem stable_anchor_establishes (b : Buf) (o : Nat) (hr : BufConsts.stableRetire = true) (hf : b.hasfp = true)
+    (hok : (setStableAnchor b o).1 = .ok) : I true (setStableAnchor b o).2.memgen (setStableAnchor b o).2 :=
+  setStableAnchor_I b o hr hf hok
+
+-- non-vacuity: stream "ab\ncd\nef\n", page 2, stable anchor at 0, then Get, GetLine, GetLine, GetToken (the window has to grow
+-- three times): the hypotheses hold, and so does the conclusion by evaluation
+example : BufConsts.stableRetire = true →
+    Anchored { b := (setStableAnchor (openBuf .stream 2 [97, 98, 10, 99, 100, 10, 101, 102, 10]) 0).2 } [.get, .getLine, .getLine, .getToken [32]] := by
+  intro _; refine ⟨?_, ?_, ?_, ?_, trivial⟩ <;> decide
+example : BufConsts.stableRetire = true →
+    (runS { b := (setStableAnchor (openBuf .stream 2 [97, 98, 10, 99, 100, 10, 101, 102, 10]) 0).2 } [.get, .getLine, .getLine, .getToken [32]]).b.memgen
+      = (setStableAnchor (openBuf .stream 2 [97, 98, 10, 99, 100, 10, 101, 102, 10]) 0).2.memgen ∧
+    (runS { b := (setStableAnchor (openBuf .stream 2 [97, 98, 10, 99, 100, 10, 101, 102, 10]) 0).2 } [.get, .getLine, .getLine, .getToken [32]]).b.balloc = 16 := by decide
 
 /-- WITHOUT the repair the full statement `∀ b nmin, b.anchor = some 0 → (refill b nmin).2.memgen = b.memgen` is false
     (`stable_ptr_valid_fails_at`, `stable_ptr_valid_iff`).
